@@ -1,0 +1,26 @@
+//go:build verif
+
+// Scheduling points for the deterministic simulator (build tag "verif"): the
+// simulator runs the engine's callers (application, receive loop, timers) as
+// tasks, one at a time, and regains control before every lock acquisition.
+
+package basic
+
+import "sync"
+
+// VerifYield, when set, is called at every scheduling point with a tag naming it.
+var VerifYield func(tag string)
+
+// verifBeforeLock parks the calling task (reporting "blocked:<tag>") until the
+// lock that is about to be taken is free, so that a simulated task never blocks
+// inside the real mutex while every other task is parked.
+func verifBeforeLock(mu *sync.Mutex, tag string) {
+	if VerifYield == nil {
+		return
+	}
+	VerifYield(tag)
+	for !mu.TryLock() {
+		VerifYield("blocked:" + tag)
+	}
+	mu.Unlock()
+}
